@@ -73,6 +73,7 @@ package client
 //@ func (*Broker).recover$1
 //@   track store send poll
 //@   before store poll assert polls-unchanged-files-only: called(sts.FileSource.Sync) && lastret(sts.FileSource.Sync, 0) == nil && lastret(sts.FileSource.Sync, 1) == nil && lastarg(sts.FileSource.Sync, 1) == f && !lastret(sts.Cached.IsDone, 0)
+//@   before store poll assert poll-looks-back-to-the-file-time: typeis(arg0[len(arg0)-1], *progressFile) && as(arg0[len(arg0)-1], *progressFile).started == f.GetTime() && as(arg0[len(arg0)-1], *progressFile).name == f.GetName() && as(arg0[len(arg0)-1], *progressFile).hash == f.GetHash()
 //@   before store send assert resumes-unchanged-files-only: called(sts.FileSource.Sync) && lastret(sts.FileSource.Sync, 0) == nil && lastret(sts.FileSource.Sync, 1) == nil && lastarg(sts.FileSource.Sync, 1) == f && !lastret(sts.Cached.IsDone, 0)
 //@   before call sts.FileCache.Done assert gone-files-only: store.IsNotExist(lastret(sts.FileSource.Sync, 1)) && arg1 == f.GetName() && arg2 == nil
 //@   after call sort.Sort assume reported-ranges-sorted: forall(i, 0, len(parts), parts[i] != nil && 0 <= parts[i].Beg && parts[i].Beg < parts[i].End && parts[i].End <= f.GetSize()) && forall(i, 0, len(parts), forall(j, i, len(parts), parts[i].Beg <= parts[j].Beg))
